@@ -92,7 +92,7 @@ class DB:
             if isinstance(n, M.SubNode):
                 t["SubNodeDAO"].append(dict(database_id=nid[id(n)], extra=n.extra))
         for i, r in enumerate(getattr(self, "riches", [])):
-            t["RichDAO"].append(dict(database_id=i + 1, number=r.number, text=r.text, ratio=r.ratio, owner_id=nid[id(r.owner)] if r.owner is not None else None))
+            t["RichDAO"].append(dict(database_id=i + 1, number=r.number, text=r.text, ratio=r.ratio, opt=r.opt, owner_id=nid[id(r.owner)] if r.owner is not None else None))
         return t
 
 
@@ -205,6 +205,13 @@ def eval_expr(e, env):
             vals = list(r) if isinstance(r, (list, tuple, set)) else [r]
             res = OR([EQ(l, x) if (is_sym(l) or is_sym(x)) else l == x for x in vals]) if vals else False
             return res if name == "in_op" else NOT(res)
+        if name in ("is_distinct_from", "is_not_distinct_from"):
+            # NULL-safe comparison: never NULL
+            if l is NULL or r is NULL:
+                res = not (l is NULL and r is NULL)
+            else:
+                res = NOT(EQ(l, r)) if (is_sym(l) or is_sym(r)) else l != r
+            return res if name == "is_distinct_from" else NOT(res)
         if name in ("is_", "is_not"):
             res = (l is NULL) if r is NULL else (EQ(l, r) if l is not NULL else False)
             return res if name == "is_" else NOT(res)
@@ -436,6 +443,22 @@ def _s22(n, m, k, db):
         r.ratio = RATIOS[db.ctx.choice("ratio%d" % i, len(RATIOS))]
         r.text = "x"
     return in_(n.ratio, [1, 2, 3]), lambda o, ns: True
+
+
+@shape("r.opt != k0 (a nullable column: None != k is true in memory)", root=M.Rich)
+def _s23(n, m, k, db):
+    for i, r in enumerate(db.riches):
+        r.opt = db.ctx.fresh_int("opt%d" % i) if db.ctx.flag("has_opt%d" % i) else None
+        r.text = "x"
+    return n.opt != k[0], lambda o, ns: True
+
+
+@shape("r.opt == k0 (a nullable column)", root=M.Rich, core=False)
+def _s24(n, m, k, db):
+    for i, r in enumerate(db.riches):
+        r.opt = db.ctx.fresh_int("opt%d" % i) if db.ctx.flag("has_opt%d" % i) else None
+        r.text = "x"
+    return n.opt == k[0], lambda o, ns: True
 
 
 @shape("not_(n.tag > k0)", expect="reject")
